@@ -2,13 +2,15 @@
 # tools/mutest.sh <patch.diff> <Cnn> [<Cnn>...]
 # Apply a patch to /repo under an exclusive lock (so no other check sees the mutated tree), run the
 # given checks, always restore /repo, print each check's exit code. The patch is a `git diff` of /repo.
+# (Replace this file only by `mv` of a new file: running instances keep reading the old inode.)
 set -u
 patch="$(realpath "$1")"; shift
-mkdir -p /verif/target
+mkdir -p /verif/target/work
 exec 9>/verif/target/repo.lock
 flock -x 9
 cd /repo
 if [ -n "$(git status --porcelain --untracked-files=no)" ]; then echo "mutest: /repo is dirty, refusing"; exit 3; fi
+trap 'git -C /repo checkout -- .' EXIT
 if ! git apply "$patch"; then echo "mutest: patch does not apply"; exit 3; fi
 cd /verif
 for id in "$@"; do
@@ -16,5 +18,3 @@ for id in "$@"; do
   rc=$?
   echo "mutest: $id exit=$rc $(grep -m1 '^VIOLATION' /verif/target/work/mutest_$id.log)"
 done
-git -C /repo checkout -- .
-# rebuild nothing here; the next check rebuilds from the restored tree
